@@ -236,6 +236,10 @@ def run(tier, seed):
         subset = sorted(CAST) if k % 2 == 0 else [a for a in sorted(CAST) if (s >> a) & 1 or a in (1, 3)]
         cases.append({"id": f"j{k}", "mode": "jitter", "seed": s + 1, "jitter_us": 2000 + 1500 * (k % 3),
                       "actors": [actor_json(a) for a in subset]})
+    # ---- a bash tool call that hits its timeout: its execution is over when the tool returns, nothing may happen afterwards
+    late_cmd = {"tool": "bash", "args": {"command": "sleep 0.7; echo late >> @@WS@@/late.txt"}, "timeout_ms": 150}
+    cases.append({"id": "timeout", "mode": "jitter", "seed": 1, "jitter_us": 0, "linger_ms": 1200,
+                  "actors": [{"a": 2, "kind": "tool", "linked": True, "input": json.dumps(late_cmd)}, actor_json(1)]})
     results = run_harness("wslock", [{k: c[k] for k in c if not k.startswith("_")} for c in cases], wd, "wsl",
                           shards=8, timeout=2400)
     by_id = {c["id"]: c for c in cases}
@@ -251,6 +255,9 @@ def run(tier, seed):
             unreal += 1
             v.drift({"case": res["id"], "note": "holder never reached the hold point"})
             continue
+        if res["id"] == "timeout" and "late.txt" in res["ws_files"]:
+            v.violation("a bash tool call that timed out kept running: it changed the workspace after its execution had ended and the workspace lock was released",
+                        {"engine": "wslock", "case": {k: c[k] for k in c if not k.startswith("_")}, "guard": "ExecutionContinuedAfterEnd"})
         runs.append((res["id"], evs))
         nontrivial = len([e for e in evs if e["ev"] == "Begin"]) >= 2
         v.add_eval({"case": res["id"]}, nontrivial)
